@@ -5,7 +5,7 @@
 // gate; ctx: blocks until its context is done).  The executor makes ONE environment move at a time (Fork, Join, Cancel,
 // RootCancel, Release, Recv, Flatten), logs it BEFORE making it, then waits with synctest.Wait until every goroutine of
 // the bubble is durably blocked and logs a Q event: the number of goroutines the component has alive
-// (runtime.NumGoroutine minus the count at the bubble's start minus the executor's own goroutines) and which of the
+// (the goroutines created by package app/forkjoin in the runtime's stack dump) and which of the
 // executor's calls are still blocked.  What comes back from a call is logged by the goroutine it comes back to
 // (ForkRet, CancelRet, FlattenRet, WorkStart, WorkEnd), so the log is a linearisation of happens-before.
 //
@@ -21,6 +21,7 @@ import (
 	"errors"
 	"fmt"
 	"runtime"
+	"strings"
 	"sync/atomic"
 	"testing"
 	"testing/synctest"
@@ -100,8 +101,6 @@ func runOne(tr *drv.Tracer, sid int, s []drv.Step) {
 	tr.Emit(drv.Step{"ev": "Reset", "sid": sid, "workers": workers, "buf": buf, "failfast": failfast, "wait": wait,
 		"script": append([]string{}, script...)})
 
-	base := runtime.NumGoroutine()
-	var own atomic.Int32 // goroutines started by the executor inside the bubble
 
 	rootParent, rootCancel := context.WithCancel(context.Background())
 	root, rootStop := context.WithDeadline(rootParent, time.Now().Add(time.Hour))
@@ -162,17 +161,18 @@ func runOne(tr *drv.Tracer, sid int, s []drv.Step) {
 		results                        forkjoin.Results[int, int]
 		received                       []forkjoin.Result[int, int]
 	)
+	stackBuf := make([]byte, 1<<20)
 	goroutines := func() int {
-		// a goroutine that just finished is counted until the runtime has put it on a free list: the count can only be
-		// transiently too high, never too low
-		best := runtime.NumGoroutine()
-		for range 30 {
-			runtime.Gosched()
-			if g := runtime.NumGoroutine(); g < best {
-				best = g
+		// the goroutines the component has started and that are still alive, from the runtime's stack dump: a goroutine
+		// that has finished is dead for the dump as soon as synctest.Wait stops counting it (runtime.NumGoroutine lags)
+		k := runtime.Stack(stackBuf, true)
+		c := 0
+		for _, g := range strings.Split(string(stackBuf[:k]), "\n\n") {
+			if strings.Contains(g, "created by github.com/obolnetwork/charon/app/forkjoin.") {
+				c++
 			}
 		}
-		return best - base - int(own.Load())
+		return c
 	}
 	settle := func() {
 		synctest.Wait()
@@ -196,9 +196,7 @@ func runOne(tr *drv.Tracer, sid int, s []drv.Step) {
 			i := nfork
 			tr.Emit(drv.Step{"ev": "Fork", "i": i})
 			forkOut.Store(true)
-			own.Add(1)
 			go func() {
-				defer own.Add(-1)
 				p := try(func() { fork(i) })
 				forkOut.Store(false)
 				emit(drv.Step{"ev": "ForkRet", "i": i, "panic": p})
@@ -220,9 +218,7 @@ func runOne(tr *drv.Tracer, sid int, s []drv.Step) {
 			}
 			tr.Emit(drv.Step{"ev": "Cancel"})
 			cancelOut.Store(true)
-			own.Add(1)
 			go func() {
-				defer own.Add(-1)
 				p := try(cancel)
 				cancelOut.Store(false)
 				emit(drv.Step{"ev": "CancelRet", "panic": p})
@@ -270,9 +266,7 @@ func runOne(tr *drv.Tracer, sid int, s []drv.Step) {
 			flattenStarted = true
 			tr.Emit(drv.Step{"ev": "Flatten"})
 			flattenOut.Store(true)
-			own.Add(1)
 			go func() {
-				defer own.Add(-1)
 				outs, err := results.Flatten()
 				flattenOut.Store(false)
 				emit(drv.Step{"ev": "FlattenRet", "outs": ints(outs), "err": cls(err)})
